@@ -35,8 +35,9 @@ func opts(cf cfg) *store.Options {
 }
 
 // transaction shapes: value lengths of the entries (0 = empty value)
-var shapes = [][]int{{10}, {0, 40}, {40, 0, 10}, {40, 40}}
-var shapeNames = []string{"[10]", "[0,40]", "[40,0,10]", "[40,40]"}
+// ([23] after [40] puts the next value on the last byte of a 64-byte chunk)
+var shapes = [][]int{{10}, {0, 40}, {40, 0, 10}, {40, 40}, {23}}
+var shapeNames = []string{"[10]", "[0,40]", "[40,0,10]", "[40,40]", "[23]"}
 
 func commitShape(st *store.ImmuStore, i int, shape []int) (*store.TxHeader, error) {
 	ctx := context.Background()
